@@ -125,6 +125,10 @@ def trees(ctx):
     out = [[0], [3, True], [3, False], [1, []], [2, []], [1, [[0]]], [9, b""], [9, b"\x7e" * 127], [9, b"a" * 128], [9, b"b" * 255], [9, b"c" * 256],
            [9, bytes(65535)], [9, bytes(65536)], [9, b"x" * 70000], [1, [[17, i % 256] for i in range(127)]], [1, [[17, i % 256] for i in range(128)]],
            [2, [[0]] * 255], [1, [[18, i] for i in range(256)]], [1, [[0]] * 300], [1, [[9, b"ab"]] * 300]]
+    # the upper and lower boundary of every date / time field (hundredths 0 and 99, hour 23, minute / second 59, day 31, month 12)
+    out += [[27, 23, 59, 59, 99], [27, 0, 0, 0, 0], [27, 12, 0, 0, 98], [26, 2020, 12, 31], [26, 1, 1, 1], [26, 9999, 12, 31],
+            [25, [2020, 12, 31, 23, 59, 59, 990000, 0], [False] * 5], [25, [1, 1, 1, 0, 0, 0, 0, None], [False] * 5],
+            [25, [2024, 2, 29, 23, 59, 59, 990000, -840], [True] * 5], [2, [[27, 23, 59, 59, 99], [25, [2020, 1, 31, 0, 0, 0, 990000, 840], [False] * 5]]]]
     deep = [17, 5]
     for _ in range(6):
         deep = [1, [deep, [2, [deep]]]]
